@@ -5,6 +5,7 @@ import Driver.Packed
 import Driver.BitmapOps
 import Driver.DimOps
 import Driver.FloatOps
+import Driver.AdaptiveOps
 /- vdriver: reads one operation per line, prints the model's canonical result line. -/
 open Driver
 
@@ -27,7 +28,9 @@ def runLine (line : String) : String :=
               | some r => r
               | none => match floatOp toks with
                 | some r => r
-                | none => "bad-op"
+                | none => match adaptiveOp toks with
+                  | some r => r
+                  | none => "bad-op"
 
 partial def loop (h : IO.FS.Stream) (out : IO.FS.Stream) : IO Unit := do
   let line ← h.getLine
